@@ -71,8 +71,8 @@ CHECKS["C07"] = ("stream/xorb", "exploration",
     "Chunk lists of 1..600 chunks (occasionally up to the 8192-chunk maximum; 1 B..128 KiB, every residue mod 4; random, compressible, float-like content) are serialised by the real code under None/LZ4/BG4+LZ4/automatic selection and read back whole, by every chunk range (all ranges up to 12 chunks, sampled beyond) and through the three chunk decoders under simulated delivery; boundaries, unpacked offsets and lengths are compared with the input. Inputs are seeded generation; the simulated part is the reader side.",
     XORB_NOTE, "§7 C07")
 CHECKS["C08"] = ("stream/xorb", "fault_enumeration",
-    "fault injection on stored/transmitted xorb bytes (enumerated single-byte flips of every header/footer byte and truncation at every offset for small objects; seeded splices, field inflation, random strings) with panic capture, counting allocator and independent re-verification of every acceptance",
-    "Both validators and the footer parser run on valid objects (own hash, other hash) and on mutants; never a panic, never a single allocation >= 64 MiB for <= 1 MiB input, valid accepted / other hash rejected, and every acceptance is re-verified: chunk section decodes, recomputed hash equals the accepted hash, returned footer fields agree with the chunk data. Per enumerated object the flip/truncation positions are complete; objects and multi-byte mutations are sampled.",
+    "fault injection on stored/transmitted xorb bytes (for small objects enumerated: every single-bit and all-bit flip of chunk-header and non-hash footer bytes, three flips of every hash byte, truncation at every offset, every version-byte x u32-field pair, all footers re-assembled with disagreeing chunk counts; seeded splices, field inflation, combined footer edits, random strings) with panic capture, counting allocator and independent re-verification of every acceptance",
+    "Both validators and the footer parser run on valid objects (own hash, other hash) and on mutants; never a panic, never a single allocation >= 64 MiB for <= 1 MiB input, valid accepted / other hash rejected, and every acceptance is re-verified: chunk section decodes, recomputed hash equals the accepted hash, returned footer fields agree with the chunk data. Per enumerated object the listed mutation families are complete; objects and other multi-byte mutations are sampled.",
     XORB_NOTE, "§7 C08")
 
 CHECKS["C17"] = ("recon", "exploration",
